@@ -200,6 +200,33 @@ def run(ctx):
         if len(drawn2) != n1 or (n1 >= 3 and drawn2 == drawn):
             ctx.fail(kind + '_rcc', 'gates without a specified map are not resampled at every call (%d maps drawn at the second call, %d at the first)' % (len(drawn2), n1),
                      dict(kind=kind, N=n, depth=depth))
+        # ... also after compile() was asked for: a circuit with gates without a specified map cannot be compiled; whether compile()
+        # refuses or not, its random gates must still be sampled at every later call, and the run must be the model's run with the
+        # drawn maps (the model's circuit is unchanged by a refused compile)
+        if n1 > 0:
+            try:
+                circ.compile(); outcome = 'accepted'
+            except Exception:
+                outcome = 'refused'
+            ctx.count('compile-of-random-circuit:' + outcome)
+            drawn3 = []
+            st3 = impl.state(rows, r)
+            try:
+                CI.random_clifford_map = lambda k: (lambda m_: (drawn3.append(impl.ops_of(m_)), m_)[1])(orig(k))
+                (circ.backward if back else circ.forward)(st3)
+            except Exception as e:
+                ctx.fail(kind + '_rcc', 'after compile() (which %s) running the circuit raised %r' % (outcome, e), dict(kind=kind, N=n, depth=depth)); continue
+            finally:
+                CI.random_clifford_map = orig
+            if len(drawn3) != n1:
+                ctx.fail(kind + '_rcc', 'after compile() was asked for (it %s) the gates without a specified map are no longer sampled at every call: %d maps drawn, %d before; '
+                         'the circuit sends the state to %s' % (outcome, len(drawn3), n1, impl.ops_of(st3)[int(st3.r):n]), dict(kind=kind, N=n, depth=depth, rows=rows, r=r, backward=back))
+            else:
+                a3 = ctx.drv.ask('circ %s %s S %d %s _ %s none' % (cid_, 'bwd' if back else 'fwd', r, H.erows_ops(rows), '/'.join(H.erows_ops(m_) for m_ in drawn3)))
+                mv3 = (int(a3.split(' ')[1]), H.drows_ops(a3.split(' ')[2])) if a3.startswith('ok ') else a3
+                ctx.count('corr:rcc-after-compile')
+                if mv3 != (int(st3.r), impl.ops_of(st3)):
+                    ctx.mismatch(kind + '_rcc', 'run after compile() with the recorded maps', str(mv3)[:600], str((int(st3.r), impl.ops_of(st3)))[:600], dict(kind=kind, N=n, depth=depth))
     # ---- statistics (support only; exact tail bounds, alpha = 1e-9 per test)
     R.seed_numba(ctx.seed * 7919 + 17)
     T = 4800
